@@ -139,6 +139,7 @@ def FOp.ceval (e : List (CVal I)) : FOp → Option (CVal I)
   | .band a b => do let x ← cb I e a; let y ← cb I e b; pure (.b (x &&& y))
   | .bxor a b => do let x ← cb I e a; let y ← cb I e b; pure (.b (x ^^^ y))
   | .inv _ | .sqrtV _ _ | .sqrtOk _ _ => none
+  | .bytesConst _ | .fromBytes _ | .toBytes _ | .topBit _ | .xorTop _ _ | .bytesEq _ _ => none
 
 def crun : List FOp → List (CVal I) → Option (List (CVal I))
   | [], e => some e
@@ -185,6 +186,7 @@ theorem Rel.fe {ce : List (CVal I)} {be : List BVal} {ae : Env} (h : Rel I ce be
     rw [List.getD_eq_getElem?_getD, hb'] at hb
     cases b' with
     | bool => simp at hb
+    | bytes => simp at hb
     | fe bb =>
       simp only [Option.getD_some, Option.some.injEq] at hb
       subst hb
@@ -202,6 +204,7 @@ theorem Rel.bool {ce : List (CVal I)} {be : List BVal} {ae : Env} (h : Rel I ce 
     rw [hb'] at hb
     cases b' with
     | fe _ => simp at hb
+    | bytes => simp at hb
     | bool =>
       cases c with
       | fe x => exact absurd hr (by simp [Rel1])
@@ -238,7 +241,8 @@ theorem Bnd.max_length_le {x y : Bnd} (h : x.length = y.length) :
 
 /-- one instruction: the replay's verdict describes the concrete step -/
 theorem step_sound {ce : List (CVal I)} {be : List BVal} {ae : Env} (h : Rel I ce be ae) (op : FOp) {bv : BVal}
-    (hb : op.babs C be = some bv) (hs : ∀ a b, op ≠ .inv a ∧ op ≠ .sqrtV a b ∧ op ≠ .sqrtOk a b) :
+    (hb : op.babs C be = some bv) (hs : ∀ a b, op ≠ .inv a ∧ op ≠ .sqrtV a b ∧ op ≠ .sqrtOk a b ∧ op ≠ .bytesConst a ∧
+      op ≠ .fromBytes a ∧ op ≠ .toBytes a ∧ op ≠ .topBit a ∧ op ≠ .xorTop a b ∧ op ≠ .bytesEq a b) :
     ∃ c, op.ceval I ce = some c ∧ Rel1 I c bv (op.eval ae) := by
   cases op with
   | const n l =>
@@ -491,12 +495,19 @@ theorem step_sound {ce : List (CVal I)} {be : List BVal} {ae : Env} (h : Rel I c
     · simp at hb
   | inv a => exact absurd rfl (hs a 0).1
   | sqrtV a b => exact absurd rfl (hs a b).2.1
-  | sqrtOk a b => exact absurd rfl (hs a b).2.2
+  | sqrtOk a b => exact absurd rfl (hs a b).2.2.1
+  | bytesConst a => exact absurd rfl (hs a 0).2.2.2.1
+  | fromBytes a => exact absurd rfl (hs a 0).2.2.2.2.1
+  | toBytes a => exact absurd rfl (hs a 0).2.2.2.2.2.1
+  | topBit a => exact absurd rfl (hs a 0).2.2.2.2.2.2.1
+  | xorTop a b => exact absurd rfl (hs a b).2.2.2.2.2.2.2.1
+  | bytesEq a b => exact absurd rfl (hs a b).2.2.2.2.2.2.2.2
 
-/-- programs without summarised calls -/
+/-- programs without summarised calls and without byte-string instructions -/
 def noSummary : List FOp → Bool
   | [] => true
   | .inv _ :: _ | .sqrtV _ _ :: _ | .sqrtOk _ _ :: _ => false
+  | .bytesConst _ :: _ | .fromBytes _ :: _ | .toBytes _ :: _ | .topBit _ :: _ | .xorTop _ _ :: _ | .bytesEq _ _ :: _ => false
   | _ :: ops => noSummary ops
 
 /-- **Soundness of the bound replay**, for every reachable environment -/
@@ -512,9 +523,10 @@ theorem brun_sound : ∀ (prog : List FOp) {ce : List (CVal I)} {be be' : List B
     | none => simp [hv] at hb
     | some bv =>
       simp only [hv, Option.bind_some] at hb
-      have hs : ∀ a b, op ≠ .inv a ∧ op ≠ .sqrtV a b ∧ op ≠ .sqrtOk a b := by
+      have hs : ∀ a b, op ≠ .inv a ∧ op ≠ .sqrtV a b ∧ op ≠ .sqrtOk a b ∧ op ≠ .bytesConst a ∧
+          op ≠ .fromBytes a ∧ op ≠ .toBytes a ∧ op ≠ .topBit a ∧ op ≠ .xorTop a b ∧ op ≠ .bytesEq a b := by
         intro a b
-        refine ⟨?_, ?_, ?_⟩ <;> (intro he; subst he; simp [noSummary] at hn)
+        refine ⟨?_, ?_, ?_, ?_, ?_, ?_, ?_, ?_, ?_⟩ <;> (intro he; subst he; simp [noSummary] at hn)
       have hn' : noSummary ops = true := by
         cases op <;> first | exact hn | (simp [noSummary] at hn)
       obtain ⟨c, hc, hr⟩ := step_sound I h op hv hs
